@@ -188,6 +188,31 @@ def _same_lineage(a, b):
     return None
 
 
+def _result_obs(r, nr):
+    """everything a result object reports through its python getters"""
+    import numpy as np
+    o = {"cls": type(r).__name__, "rows": np.array(r.py_get_result(), dtype=float).tolist(), "t": [float(x) for x in r.py_get_timepoints()]}
+    if hasattr(r, "py_get_volume"):
+        o["vol"] = [float(x) for x in r.py_get_volume()]
+        o["divided"] = int(r.py_cell_divided())
+        fs = r.py_get_final_cell_state()
+        o["final_cls"] = type(fs).__name__
+        o["final"] = [x.tolist() if isinstance(x, np.ndarray) else repr(x) for x in fs.__getstate__()]
+    if hasattr(r, "py_get_delay_queue") and r.py_get_delay_queue() is not None:
+        q = r.py_get_delay_queue().py_copy()
+        o["queue_time"] = float(q.py_get_next_queue_time())
+        pend = []
+        for _ in range(len(o["t"])):
+            a = np.zeros(nr)
+            q.py_get_next_reactions(a)
+            q.py_advance_time()
+            pend.append(a.tolist())
+        o["pending"] = pend
+    if hasattr(r, "py_get_divided"):
+        o["division_code"], o["death_code"] = int(r.py_get_divided()), int(r.py_get_dead())
+    return o
+
+
 def impl_results(job):
     """lineages, cell states and results produced by the real simulators on the covering LineageModel"""
     import numpy as np
@@ -196,7 +221,7 @@ def impl_results(job):
     from bioscrape.lineage import py_SimulateCellLineage, py_SimulateSingleCell, LineageVolumeCellState
     from ..lifecycle import World
     menu, rec = job["menu"], job["rec"]
-    res = {"ok": True, "lineages": 0, "schnitzes": 0, "cellstates": 0}
+    res = {"ok": True, "lineages": 0, "schnitzes": 0, "cellstates": 0, "results": 0}
     try:
         W = World(menu, "lineage")
         lm = W.pre(rec["pre"])
@@ -237,6 +262,21 @@ def impl_results(job):
                 if np.shares_memory(cs.py_get_state(), cc.py_get_state()):
                     return {"ok": False, "what": "cellstate-shared:LineageVolumeCellState:" + kind, "detail": "state array shared"}
                 res["cellstates"] += 1
+            # result objects of every mode (SSAResult, DelaySSAResult, VolumeSSAResult, DelayVolumeSSAResult, SingleCellSSAResult)
+            nr = lm.py_get_update_array().shape[1]
+            for kw in (dict(stochastic=False), dict(stochastic=True), dict(stochastic=True, delay=True), dict(stochastic=True, volume=1.5),
+                       dict(stochastic=True, volume=1.5, delay=True), "single-cell"):
+                br.py_seed_random(sd + 11)
+                ro = py_SimulateSingleCell(tp, Model=lm, return_dataframes=False) if kw == "single-cell" else py_simulate_model(tp, Model=lm, return_dataframe=False, **kw)
+                want = _result_obs(ro, nr)
+                for kind, rc in _copies(ro):
+                    got = _result_obs(rc, nr)
+                    if got != want and not (json.dumps(got) == json.dumps(want)):       # (NaN rows of a failed integration compare unequal)
+                        k = next(k for k in want if json.dumps(got.get(k)) != json.dumps(want[k]))
+                        return {"ok": False, "what": "result:%s:%s:%s" % (want["cls"], k, kind), "detail": "%s of the %s: %r, original %r" % (k, kind, got.get(k), want[k])}
+                    if np.shares_memory(rc.py_get_result(), ro.py_get_result()):
+                        return {"ok": False, "what": "result-shared:%s:%s" % (want["cls"], kind), "detail": "result array shared with the copy"}
+                    res["results"] = res.get("results", 0) + 1
             vr = py_simulate_model(tp, Model=lm, stochastic=True, volume=1.5, return_dataframe=False)
             vc = vr.py_get_final_cell_state()
             for x in (vc, VolumeCellState(2.5, np.array([1.0, 4.0, 0.0, 2.0]), 1.25), LineageVolumeCellState(v0=1.5, t0=0.5, state=np.array([3.0, 1.0]), volume=2.0, time=1.0, divided=1, dead=-1)):
@@ -357,7 +397,7 @@ def run(tier):
             else:
                 v.violation("result-object:%s:%s" % (rec["what"], got["what"]), got["detail"], {"tree": rec, "got": got})
     # results of the real simulators
-    rstats = {"lineages": 0, "schnitzes": 0, "cellstates": 0}
+    rstats = {"lineages": 0, "schnitzes": 0, "cellstates": 0, "results": 0}
     pres = {}
     for x in recs:
         if x["fam"] == "lineage" and x["pre"]["lin"] and len(x["pre"]["lin"]) <= 4:
@@ -393,7 +433,7 @@ def run(tier):
            "histories_skipped_by_watchdog": counters.get("skipped", 0),
            "observations_not_judged": counters.get("obs", {}), "types_covered_by_start_objects": types,
            "tree_records_replayed": tok, "simulated_lineages_roundtripped": rstats["lineages"], "simulated_schnitzes": rstats["schnitzes"],
-           "cell_states_roundtripped": rstats["cellstates"],
+           "cell_states_roundtripped": rstats["cellstates"], "result_objects_roundtripped": rstats["results"],
            "checker_cmd": "tlc LifecycleGen (INVARIANTS %s; PROPERTIES %s; VIEW View); tlc LifecycleTree (INVARIANTS %s)" % (
                " ".join(c08.INVS), " ".join(c08.PROPS), " ".join(TREE_INVS))}
     common.write_evidence(PROP, tier, cov, time.time() - t0, len(v.alarms) + sum(v.known_hit.values()),
